@@ -147,7 +147,7 @@ func NewTxRecord(serializedTx []byte, received time.Time) (*TxRecord, error) {
 		str := "failed to deserialize transaction"
 		return nil, storeError(ErrInput, str, err)
 	}
-	copy(rec.Hash[:], chainhash.DoubleHashB(serializedTx))
+	rec.Hash = rec.MsgTx.TxHash()
 	return rec, nil
 }
 
